@@ -2,6 +2,7 @@ import RsModel.Props.C11
 import RsModel.Lemmas.CharStarts
 import RsModel.Props.C10
 import RsModel.Props.C16
+import RsModel.Lemmas.CposBoundary
 /-!
 # C19 — unsafe code never acts outside its preconditions
 One theorem per kind of unsafe operation: the stated precondition holds whenever the model reaches it.
@@ -79,5 +80,20 @@ theorem c19_rope_slice_indices_in_range (p : RProgS) (h : p.TextsOK) (r : Rope) 
 theorem c19_rope_get_byte_in_range (p : RProgS) (h : p.TextsOK) (r : Rope) (hr : p.eval = .ok r) (i : Nat) :
     ∃ v, r.getByte i = .ok v :=
   ⟨_, Rope.getByte_spec r ((c16_program p h).2 r hr).inv i⟩
+
+/-- `WithIndices::substring` hands `byte_slice_unchecked` offsets that are char boundaries (besides being ordered and in range,
+`c19_substring_range`): both for a `&str` line and for a rope line -/
+theorem c19_substring_boundaries (line : Text) (a b : Nat) :
+    isBoundary line (cpos line a) = true ∧ isBoundary line (cpos line b) = true := ⟨cpos_boundary line a, cpos_boundary line b⟩
+
+/-- … hence the unchecked `str::get_unchecked` calls inside `Rope::byte_slice_unchecked` (first / last / same chunk, Light) are
+reached exactly where the *checked* slicing succeeds: on every rope a program can build, slicing between two char offsets of
+its text returns `Ok` (no out-of-range index, no cut inside a character) and yields that window -/
+theorem c19_rope_unchecked_ok (p : RProgS) (h : p.TextsOK) (r : Rope) (hr : p.eval = .ok r) (a b : Nat) (hab : a ≤ b) :
+    ∃ r', r.byteSlice (cpos r.render a) (cpos r.render b) = .ok r' ∧ r'.render = bsub r.render (cpos r.render a) (cpos r.render b) := by
+  have hw := (c16_program p h).2 r hr
+  obtain ⟨s1, _⟩ := Rope.byteSlice_spec r hw (cpos r.render a) (cpos r.render b) (cpos_mono _ a b hab) (cpos_le _ b)
+  obtain ⟨r', e1, e2, _⟩ := s1 (by rw [cpos_boundary, cpos_boundary]; rfl)
+  exact ⟨r', e1, e2⟩
 
 end Rs
